@@ -113,12 +113,25 @@ def lean_obligations(ctx, modules):
     for m in modules:
         thms += [(m, t) for t in theorems_of(m)]
     if not ok:
-        # which modules failed?
-        failed = set(re.findall(r"^✖ \[\d+/\d+\] Building (\S+)", out, flags=re.M)) | set(re.findall(r"^- (\S+)$", out, flags=re.M))
-        for m, t in thms:
-            ctx.oblige(f"theorem {m}.{t}", False, out)
-        ctx.notes.append("lake build failed: " + ", ".join(sorted(failed)))
-        return False
+        # attribute the failure: build the modules one by one
+        bad_modules = []
+        for m in modules:
+            okm, outm = lake_build(ctx, [m])
+            if not okm:
+                bad_modules.append(m)
+                for mm, t in thms:
+                    if mm == m:
+                        ctx.oblige(f"theorem {m}.{t}", False, outm)
+                if not theorems_of(m):
+                    ctx.oblige(f"module {m} builds", False, outm)
+        okd, outd = lake_build(ctx, ["fixdriver"])
+        if not okd:
+            ctx.oblige("Lean driver builds", False, outd)
+        ctx.notes.append("lake build failed: " + ", ".join(bad_modules))
+        modules = [m for m in modules if m not in bad_modules]
+        thms = [(m, t) for (m, t) in thms if m in modules]
+        if not modules:
+            return False
     # axiom audit
     adir = os.path.join(LEAN, ".audit")
     os.makedirs(adir, exist_ok=True)
